@@ -42,7 +42,7 @@ func WithDeadline(p context.Context, t time.Time) (context.Context, context.Canc
 
 // Err is ctx.Err() with a scheduling point.
 func Err(c context.Context) error {
-	vrt.ShimOps++
+	vrt.CountShim()
 	vrt.Point()
 	vrt.TouchExternal(false)
 	return c.Err()
